@@ -151,6 +151,50 @@ func init() {
 			return it.Cnt["misuse-stale-dead-id-reused"] > 0 && it.M.NumAlive() >= 2
 		},
 	}
+	Props["C11"] = &PropDef{
+		ID: "C11",
+		Profile: &Profile{Name: "memory", W: with(baseWeights(), "gc", 6, "newBatch", 8, "removeEntities", 6, "removeBatch", 6, "addBatch", 6, "exchangeBatch", 4, "removeEntity", 10, "remove", 12, "shrink", 4, "reset", 2, "copy", 4, "filterNew", 5),
+			MaxEnts: 200, MinOps: 10, MaxOps: 120, BigBatches: true, Caps: []int{1, 2, 4, 16, 64, 128}},
+		Policies: []Policy{{}},
+		Opt:      Options{DeepEvery: 4},
+		Rule: genNote + "payloads are always non-zero; pointer-bearing components (pointer, slice, string, map, relation with pointer) carry checksummed pointees; heavy remove/move/batch/reset/shrink, tables around the 64-row threshold, " +
+			"forced GCs at drawn points and GOGC=1 for the whole process; after every op every component never written since it was added must be all-zero bytes (also checked inside init callbacks), and every pointee must still carry its checksum; " +
+			"non-trivial = >= 1 uninitialised add/create lands in a table layout that earlier lost a row holding non-zero data",
+		NonTrivial: func(it *Interp, ops []Op) bool { return it.Cnt["uninit-add-into-vacated-table"] > 0 },
+	}
+	mixed := with(obsW, "obsNew", 3, "obsReg", 3, "filterNew", 6, "filterReg", 5, "query", 12, "stats", 4, "shrink", 3, "reset", 1, "setRel", 8, "removeEntity", 9, "removeEntities", 5, "newBatch", 8, "dumpLoad", 1)
+	Props["C12"] = &PropDef{
+		ID:       "C12",
+		Profile:  &Profile{Name: "mixed", W: mixed, MaxEnts: 40, MinOps: 20, MaxOps: 120, RelBias: 60, Caps: []int{1, 1, 2, 3, 4, 8, 16}},
+		Policies: []Policy{{}, {}},
+		Opt:      Options{DeepEvery: 10},
+		Rule: genNote + "every op list (all op kinds incl. relation-table recycling, cached filters, observers, Shrink, Reset) is executed twice in one process and once in each of 3 long-lived child processes (separate map hash seeds); " +
+			"the traces - every returned handle, batch callback order, the visit order of every query, Stats field by field incl. per-table figures - must be identical; " +
+			"non-trivial = >= 20 ops with >= 1 relation table emptied (freed/recycled) and >= 1 query of a registered filter",
+		NonTrivial: func(it *Interp, ops []Op) bool {
+			return len(ops) >= 20 && it.Cnt["relation-table-emptied"] > 0 && it.Cnt["query-cached"] > 0
+		},
+	}
+	Props["C20"] = &PropDef{
+		ID: "C20",
+		Profile: &Profile{Name: "builds", W: with(mixed, "probe", 18, "misuse", 10, "read", 4, "dumpLoad", 0), MaxEnts: 30, MinOps: 20, MaxOps: 100, RelBias: 40, MaxFill: 48, Misuse: true,
+			Caps: []int{1, 2, 3, 4, 8, 16}},
+		Policies: []Policy{{}},
+		Opt:      Options{DeepEvery: 10},
+		Rule: genNote + "histories restricted to 64 component types (0-48 filler types) with probes the model does not predict (query access before the first Next, after exhaustion and after Close; Get/Set/GetRelation/Has of missing components, " +
+			"including dereferencing returned pointers) and precondition violations; each op list is executed in-process (default build) and by four child binaries built with tags {}, {ark_tiny}, {ark_debug}, {ark_tiny, ark_debug}; " +
+			"traces (handles, query orders, Stats, panic yes/no per probe, full state dump after every probe) must be identical, panic messages are not compared; " +
+			"non-trivial = >= 20 ops with probes of >= 2 different kinds",
+		NonTrivial: func(it *Interp, ops []Op) bool {
+			kinds := map[string]bool{}
+			for i := range ops {
+				if ops[i].K == "probe" {
+					kinds[ops[i].Sub] = true
+				}
+			}
+			return len(ops) >= 20 && len(kinds) >= 2
+		},
+	}
 	Props["C14"] = &PropDef{
 		ID:       "C14",
 		Profile:  &Profile{Name: "typed", W: with(obsW, "obsNew", 4, "obsReg", 4, "query", 10, "filterNew", 6, "addBatch", 4, "removeBatch", 4, "exchangeBatch", 4, "setRelBatch", 4, "newBatch", 6), MaxEnts: 30, MinOps: 10, MaxOps: 100, RelBias: 20, ObsPrefix: 2},
